@@ -20,8 +20,7 @@ CFG = {
                   "also used by the harness to compute how much plaintext a compressed prefix yields) and strconv are "
                   "outside the model; 'time proportional to the input' is proved as a bound on record reads of the "
                   "models and observed on the Go runtime (deadline 2 s + 1 us/byte per decode, RLIMIT_AS 3 GiB), not "
-                  "proved about the Go runtime; one ASCII-PLY clause (token cut inside a face line) is proved for the "
-                  "line reader only (_partial) and checked by the correspondence",
+                  "proved about the Go runtime",
     "technique": "Coq proof (stream-parser combinators with a threshold invariant; induction over records/lines) + "
                  "exhaustive cut-point correspondence in capped child processes",
     "design_ref": "DESIGN.md §4 C14",
